@@ -217,6 +217,19 @@ def run(ctx):
         ctx.case(dict(kind='constructed', seed=seed, opts=opts), nontrivial=nobj > 0)
         ctx.count('doc:constructed')
         report(doc_roundtrip(doc, 'constructed seed=%d' % seed), dict(kind='constructed', seed=seed, opts=opts))
+    # ---- documents loaded from files pycollada did not write (vlib/docgen.py: strips, fans, bindings inside <vertices>, shared offsets, ...)
+    import collada
+    from vlib import docgen
+    for i in range(ctx.n(80, 3000)):
+        seed = ctx.rng.randrange(10 ** 9)
+        try:
+            doc = collada.Collada(io.BytesIO(docgen.generate(seed, dict(anim=False, perm=(i % 2 == 0)))))
+        except Exception:
+            ctx.count('docgen:not loadable')
+            continue
+        ctx.case(dict(kind='docgen', seed=seed, perm=(i % 2 == 0)))
+        ctx.count('doc:loaded-from-generated-file')
+        report(doc_roundtrip(doc, 'generated file seed=%d' % seed), dict(kind='docgen', seed=seed, perm=(i % 2 == 0)))
     # ---- shipped documents
     for label, thunk in corpus_docs():
         try:
@@ -237,6 +250,10 @@ def replay(ctx, rep):
         return bad
     if rep.get('kind') == 'constructed':
         res = doc_roundtrip(modelgen.build(rep['seed'], rep.get('opts')), 'constructed seed=%d' % rep['seed'])
+    elif rep.get('kind') == 'docgen':
+        import collada
+        from vlib import docgen
+        res = doc_roundtrip(collada.Collada(io.BytesIO(docgen.generate(rep['seed'], dict(anim=False, perm=rep['perm'])))), 'generated file seed=%d' % rep['seed'])
     else:
         docs = dict(corpus_docs())
         res = doc_roundtrip(docs[rep['file']](), rep['file'])
